@@ -296,6 +296,9 @@ func (p *CFListChannelPayload) UnmarshalBinary(uplink bool, data []byte) error {
 		return errors.New("lorawan: length must be a multiple of 3")
 	}
 
+	// reset the channels (in case p has been used before)
+	p.Channels = [5]uint32{}
+
 	for i := 0; i < len(data)/3; i++ {
 		p.Channels[i] = binary.LittleEndian.Uint32([]byte{
 			data[i*3],
@@ -343,6 +346,9 @@ func (p *CFListChannelMaskPayload) UnmarshalBinary(uplink bool, data []byte) err
 
 	var chMaskNil ChMask
 	var pending []ChMask
+
+	// reset the channel-masks (in case p has been used before)
+	p.ChannelMasks = nil
 
 	for i := 0; i < len(data)/2; i++ {
 		var cm ChMask
